@@ -34,6 +34,7 @@ class Ledger:
         self.trace = []
         self.opened = []          # FileProxy objects created while active
         self.audit_opens = 0
+        self.failed_opens = 0     # open() calls for covered paths that raised (unknown codec ...): audited, but no handle exists
         self.fired = False
 
     def covers(self, path):
@@ -138,7 +139,12 @@ class FileProxy:
 def _make_open(real_open):
     def proxy_open(file, mode="r", *args, **kwargs):
         led = _current
-        f = real_open(file, mode, *args, **kwargs)
+        try:
+            f = real_open(file, mode, *args, **kwargs)
+        except BaseException:
+            if led is not None and not isinstance(file, int) and led.covers(file):
+                led.failed_opens += 1
+            raise
         if led is not None and not isinstance(file, int) and led.covers(file):
             p = FileProxy(f, led, os.fspath(file), mode)
             led.opened.append(p)
